@@ -144,6 +144,7 @@ pub fn start_watchdog(limit_s: u64, on_hang: Box<dyn Fn(Hang) + Send>) {
                 if s % 2 == 1 && s == last[i].0 {
                     last[i].1 += 1;
                     if last[i].1 >= limit_s * 2 {
+                        last[i].1 = 0;
                         let cur = SLOTS[i].cur.lock().unwrap().clone();
                         let mut it = cur.splitn(3, '\u{1}');
                         let ev = it.next().unwrap_or("").to_string();
